@@ -536,7 +536,24 @@ fn failing_clone_case(rep: &Report, idx: usize, seed: u64) -> Option<String> {
         std::fs::create_dir_all(&odir).unwrap();
         let out = odir.join("out.bin");
         let mode = (idx / 3) % 3; // 0 new, 1 --seed-output on existing, 2 -f on existing
-        if mode > 0 {
+        // Every tenth case: the archive is fine, but the existing output cannot be opened for
+        // writing — it is an executable that is running (ETXTBSY) — and -f is given.
+        let sleep_bin = ["/bin/sleep", "/usr/bin/sleep"].iter().map(Path::new).find(|p| p.exists());
+        let busy = idx % 10 == 9 && sleep_bin.is_some();
+        let (bytes, what, verify) = if busy { (e.bytes.clone(), "-f onto an output that is a running executable", false) } else { (bytes, what, verify) };
+        let mode = if busy { 2 } else { mode };
+        let mut busy_child: Option<std::process::Child> = None;
+        if busy {
+            use std::os::unix::fs::PermissionsExt;
+            std::fs::write(&apath, &bytes).unwrap();
+            std::fs::copy(sleep_bin.unwrap(), &out).map_err(|e| e.to_string())?;
+            std::fs::set_permissions(&out, std::fs::Permissions::from_mode(0o755)).map_err(|e| e.to_string())?;
+            busy_child = std::process::Command::new(&out).arg("60").stdin(std::process::Stdio::null()).stdout(std::process::Stdio::null()).stderr(std::process::Stdio::null()).spawn().ok();
+            if busy_child.is_none() {
+                rep.inconclusive("could not start the executable used as busy output");
+                return Ok(());
+            }
+        } else if mode > 0 {
             std::fs::write(&out, gen::apply_edit(&mut rng, &source, gen::Edit::Swap)).unwrap();
         }
         let before_out = listing(&odir);
@@ -569,6 +586,10 @@ fn failing_clone_case(rep: &Report, idx: usize, seed: u64) -> Option<String> {
         run.wrapper = strace_wrapper(&trace);
         let o = proc::run(&run);
         drop(server);
+        if let Some(mut c) = busy_child {
+            let _ = c.kill();
+            let _ = c.wait();
+        }
         rep.eval();
         if o.exit == Exit::Timeout {
             rep.inconclusive("watchdog");
